@@ -200,8 +200,17 @@ def run(res, tier, lean, prop="C01", proof_breaks=(), build_log=""):
         # a directory tree leaves the watched tree; while the library drops its watches the k-th inotify_rm_watch finds the
         # watch already gone (EINVAL): the emitter must survive and keep reporting
         plan += [("rmfault", k) for k in (1, 2, 3)]
+    if prop in ("C01", "C02", "C03", "C07"):
+        # histories in the regime of the theorem paced_run (one operation / file storm / nested creation burst per read)
+        plan += [("paced", 0)] * (6 if thorough else 2)
     for i, what in enumerate(plan):
         init_b, bursts = pipe.gen_bursts(r, r.randint(3, 6))
+        if what is not None and what[0] == "paced":
+            init_b, bursts = pipe.gen_paced(r, r.randint(4, 8))
+            what = None
+            paced = True
+        else:
+            paced = False
         if what is not None and what[0] == "rmfault":
             init_b = [("mkdir", "W/d"), ("mkdir", "W/d/dd"), ("mkdir", "W/d/dd/d"), ("mkdir", "W/a")]
             bursts = [[("rename", "W/d", "O/x")], [("create", "W/a/b")], [("create", "O/x/dd/a")]]
@@ -210,7 +219,7 @@ def run(res, tier, lean, prop="C01", proof_breaks=(), build_log=""):
             bursts = [[("mkdir", "W/n"), ("mkdir", "W/n/a"), ("mkdir", "W/n/b"), ("mkdir", "W/n/d"), ("mkdir", "W/n/dd"),
                        ("create", "W/n/dd/b"), ("mkdir", "W/n/dd/d"), ("create", "W/n/f")],
                       [("create", "W/d/a")]]
-        recursive = True if (prop not in ("C01", "C02") or what is not None) else (i % 3 != 2)
+        recursive = True if (prop not in ("C01", "C02") or what is not None or paced) else (i % 3 != 2)
         full = r.random() < 0.25
         small = r.random() < 0.4
         vanish = None
@@ -219,7 +228,7 @@ def run(res, tier, lean, prop="C01", proof_breaks=(), build_log=""):
             rmf = what[1]
         elif what is not None:
             vanish = what[1]
-        elif prop == "C07" and i % 2 == 1:
+        elif prop == "C07" and i % 2 == 1 and not paced:
             vanish = r.randint(1, 6)        # a directory vanishes just before the k-th follow-up inotify_add_watch
         out = pipe.run_bursts(init_b, bursts, recursive=recursive, full=full, small_reads=small, vanish_at=vanish, rm_fault_at=rmf)
         if rmf is not None and out["rm_faults"]:
@@ -291,6 +300,8 @@ def run(res, tier, lean, prop="C01", proof_breaks=(), build_log=""):
         if o == "bad-op":
             raise RuntimeError("driver refused " + line)
         parts = o.split(" | ")[0].split(" ; ") if applied else []
+        if o.endswith(" paced=1"):
+            res.bump("burst_histories_in_the_regime_of_paced_run")    # every burst: one op / file burst / nested creation burst
         for bi, (ops_b, real, mod) in enumerate(zip(applied, out["per_op"], parts)):
             mevs, _, simple = mod.rpartition(" simple=")
             mevs, _, grow = mevs.rpartition(" grow=")
